@@ -2,8 +2,9 @@
 IntEnum subclass defined in the fusion_engine_client package, the parameters of every enum_bitmask helper, the
 reserved prefix / separator of hidden member names and the list of names enum_bitmask treats as internals.
 
-Tables come from importing the package in a fresh IMPL interpreter (harness/py/c17_tables.py); the two string
-constants come from the source text of enum_utils.py.  Fail closed: anything unexpected raises."""
+Tables come from importing the package in a fresh IMPL interpreter (harness/py/c17_tables.py); the prefix constant
+is read from the source text and from the imported class (they must agree), the separator of hidden member names
+from the name a scratch class gives to an unknown value.  Fail closed: anything unexpected raises."""
 import json, os, re, subprocess, sys
 sys.path.insert(0, os.path.join(os.path.dirname(__file__), '..', 'lib'))
 import vf
@@ -54,11 +55,8 @@ def generate():
     if not m:
         raise RuntimeError('gen_c17: UNRECOGNIZED_PREFIX literal not found in enum_utils.py')
     prefix = m.group(1)
-    seps = re.findall(r"extend_enum\(\s*cls\s*,\s*f'\{cls\.UNRECOGNIZED_PREFIX\}([^{}']*)\{value\}'\s*,\s*value\s*\)", txt)
-    if len(seps) != 1:
-        raise RuntimeError('gen_c17: expected exactly one extend_enum(cls, f"{cls.UNRECOGNIZED_PREFIX}<sep>{value}", value), got %r' % seps)
-    sep = seps[0]
     info = introspect()
+    sep = info['sep']
     if info['prefix'] != prefix:
         raise RuntimeError('gen_c17: prefix in source %r differs from the imported class attribute %r' % (prefix, info['prefix']))
     for mod, why in info['skipped_modules']:
